@@ -7,6 +7,8 @@ package interp
 
 import (
 	"fmt"
+	"math/big"
+	"sync"
 	"unsafe"
 	"go/token"
 	"go/types"
@@ -18,13 +20,16 @@ import (
 // SkipInitPrefixes: packages whose init function is not interpreted (their
 // globals stay zero unless an intrinsic provides them).
 var SkipInitPrefixes = []string{
-	"runtime", "internal/", "syscall", "os", "reflect", "sync", "unsafe", "time", "errors", "fmt",
-	"math/rand", "crypto/", "log", "io", "unicode", "go.uber.org/zap", "go.uber.org/multierr", "expvar", "google.golang.org/",
+	"runtime", "internal/", "syscall", "os", "reflect", "sync", "unsafe", "time", "fmt",
+	"math/rand", "crypto/", "log", "go.uber.org/zap", "go.uber.org/multierr", "expvar", "google.golang.org/",
 	"go.yaml.in/", "github.com/siderolabs/gen/concurrent", "github.com/cosi-project/runtime/api",
-	"github.com/grpc-ecosystem", "golang.org/x/", "encoding/", "regexp", "net", "hash/", "compress/", "github.com/klauspost/",
-	"github.com/ProtonMail/", "github.com/cloudflare/", "go.etcd.io/", "github.com/planetscale/vtprotobuf", "iter", "unique", "weak",
-	"text/", "html/", "mime", "path", "bufio", "bytes", "strings", "strconv", "sort", "slices", "maps", "math", "container/", "embed",
+	"github.com/grpc-ecosystem", "golang.org/x/", "encoding/json", "encoding/xml", "encoding/gob", "encoding/asn1", "regexp", "net", "hash/", "compress/", "github.com/klauspost/",
+	"github.com/ProtonMail/", "github.com/cloudflare/", "go.etcd.io/", "unique", "weak",
+	"text/", "html/", "mime", "embed", "unicode", "iter", "github.com/planetscale/vtprotobuf/types", "github.com/siderolabs/protoenc",
 }
+
+// zeroOK lists globals of packages with skipped init that may be read as zero values.
+var zeroOKGlobals = map[string]bool{}
 
 func ShouldSkipInit(path string) bool {
 	for _, p := range SkipInitPrefixes {
@@ -33,6 +38,55 @@ func ShouldSkipInit(path string) bool {
 		}
 	}
 	return false
+}
+
+var skipScan struct {
+	sync.Mutex
+	done map[*ssa.Package]map[*ssa.Global]bool
+}
+
+// initTouchedGlobals returns the globals that the (skipped) init code of pkg
+// references, i.e. those that would not be zero in a real run.
+func initTouchedGlobals(pkg *ssa.Package) map[*ssa.Global]bool {
+	skipScan.Lock()
+	defer skipScan.Unlock()
+	if skipScan.done == nil {
+		skipScan.done = map[*ssa.Package]map[*ssa.Global]bool{}
+	}
+	if m, ok := skipScan.done[pkg]; ok {
+		return m
+	}
+	m := map[*ssa.Global]bool{}
+	seen := map[*ssa.Function]bool{}
+	var visit func(f *ssa.Function)
+	visit = func(f *ssa.Function) {
+		if f == nil || seen[f] || f.Pkg != pkg {
+			return
+		}
+		seen[f] = true
+		for _, b := range f.Blocks {
+			for _, in := range b.Instrs {
+				for _, op := range in.Operands(nil) {
+					switch v := (*op).(type) {
+					case *ssa.Global:
+						if v.Pkg == pkg {
+							m[v] = true
+						}
+					case *ssa.Function:
+						if strings.HasPrefix(v.Name(), "init") {
+							visit(v)
+						}
+					}
+				}
+			}
+		}
+		for _, af := range f.AnonFuncs {
+			visit(af)
+		}
+	}
+	visit(pkg.Func("init"))
+	skipScan.done[pkg] = m
+	return m
 }
 
 // findExternal resolves an intrinsic for fn (exact name, then generic origin name).
@@ -1027,5 +1081,158 @@ func init() {
 		a0, a1 := uintptr(unsafe.Pointer(&a[0])), uintptr(unsafe.Pointer(&a[len(a)-1]))
 		b0, b1 := uintptr(unsafe.Pointer(&b[0])), uintptr(unsafe.Pointer(&b[len(b)-1]))
 		return a0 <= b1 && b0 <= a1
+	}
+}
+
+// ---- strconv on symbolic numbers (contract: Parse(Format(v)) = v iff v fits) ----
+
+func (i *interpreter) decStrEq(x decStr, y value) value {
+	switch y := y.(type) {
+	case decStr:
+		return i.eqv(types.Typ[types.Int64], x.n, y.n)
+	case string:
+		// canonical decimal text?
+		b, ok := new(big.Int).SetString(y, 10)
+		if !ok || b.String() != y {
+			return false
+		}
+		return &sym{term: "(= " + x.n.term + " " + bigTerm(b) + ")", kind: kBool}
+	}
+	panic(unsupported{fmt.Sprintf("comparison of a formatted number with %T", y)})
+}
+
+func strErr(fr *frame, msg string) iface {
+	es := fr.i.prog.ImportedPackage("errors").Type("errorString").Type()
+	var s value = structure{msg}
+	return iface{t: types.NewPointer(es), v: &s}
+}
+
+func init() {
+	format := func(fr *frame, args []value) value {
+		n, ok := args[0].(*sym)
+		if !ok {
+			return fallthroughMarker{}
+		}
+		if b, isConc := args[1].(int); !isConc || b != 10 {
+			panic(unsupported{"strconv.Format of a symbolic number in a base other than 10"})
+		}
+		return decStr{n}
+	}
+	externals["strconv.FormatUint"] = format
+	externals["strconv.FormatInt"] = format
+	externals["strconv.Itoa"] = func(fr *frame, args []value) value {
+		n, ok := args[0].(*sym)
+		if !ok {
+			return fallthroughMarker{}
+		}
+		return decStr{n}
+	}
+	parse := func(signed bool) externalFn {
+		return func(fr *frame, args []value) value {
+			d, ok := args[0].(decStr)
+			if !ok {
+				if _, isSym := args[0].(*sym); isSym {
+					panic(unsupported{"strconv.Parse of an atom string"})
+				}
+				return fallthroughMarker{}
+			}
+			base, _ := args[1].(int)
+			bits, _ := args[2].(int)
+			if base != 10 && base != 0 {
+				panic(unsupported{"strconv.Parse of a formatted number in a base other than 10"})
+			}
+			if bits == 0 {
+				bits = 64
+			}
+			var k types.BasicKind
+			switch {
+			case signed:
+				k = map[int]types.BasicKind{8: types.Int8, 16: types.Int16, 32: types.Int32, 64: types.Int64}[bits]
+			default:
+				k = map[int]types.BasicKind{8: types.Uint8, 16: types.Uint16, 32: types.Uint32, 64: types.Uint64}[bits]
+			}
+			if signed {
+				// the text of an unsigned value never carries a sign; of a signed one it may
+			}
+			inRange := &sym{term: rangeConstraint(d.n.term, k), kind: kBool}
+			res := types.Int64
+			if !signed {
+				res = types.Uint64
+			}
+			if fr.i.decide(inRange) {
+				return tuple{&sym{term: d.n.term, kind: kInt, bk: res}, iface{}}
+			}
+			if !signed {
+				// a negative number's text starts with '-': syntax error, value 0
+				neg := &sym{term: "(< " + d.n.term + " 0)", kind: kBool}
+				if fr.i.decide(neg) {
+					return tuple{uint64(0), strErr(fr, "strconv.ParseUint: invalid syntax")}
+				}
+			}
+			lo, hi := kindRange(k)
+			over := &sym{term: "(> " + d.n.term + " " + bigTerm(hi) + ")", kind: kBool}
+			if fr.i.decide(over) {
+				return tuple{valueOfKind(res, hi), strErr(fr, "strconv.Parse: value out of range")}
+			}
+			return tuple{valueOfKind(res, lo), strErr(fr, "strconv.Parse: value out of range")}
+		}
+	}
+	externals["strconv.ParseInt"] = parse(true)
+	externals["strconv.ParseUint"] = parse(false)
+	externals["internal/stringslite.Clone"] = func(fr *frame, args []value) value { return args[0] }
+	externals["strings.Clone"] = func(fr *frame, args []value) value { return args[0] }
+}
+
+// ---- zstd (contract: DecodeAll(EncodeAll(src, dst)[len(dst):]) = src; EncodeAll appends to dst) ----
+
+func init() {
+	const magic = uint8(0xB5)
+	externals["(*github.com/klauspost/compress/zstd.Encoder).EncodeAll"] = func(fr *frame, args []value) value {
+		src, _ := args[1].([]value)
+		dst, _ := args[2].([]value)
+		dst = append(dst, magic)
+		dst = append(dst, src...)
+		return dst
+	}
+	externals["(*github.com/klauspost/compress/zstd.Decoder).DecodeAll"] = func(fr *frame, args []value) value {
+		in, _ := args[1].([]value)
+		dst, _ := args[2].([]value)
+		if len(in) == 0 {
+			return tuple{dst, strErr(fr, "zstd: unexpected EOF")}
+		}
+		ok := fr.i.eqv(types.Typ[types.Uint8], in[0], magic)
+		if !fr.i.decide(ok) {
+			return tuple{dst, strErr(fr, "zstd: magic number mismatch")}
+		}
+		return tuple{append(dst, in[1:]...), iface{}}
+	}
+	newPtr := func(fr *frame, args []value) value {
+		var v value = structure{}
+		return tuple{&v, iface{}}
+	}
+	externals["github.com/klauspost/compress/zstd.NewWriter"] = newPtr
+	externals["github.com/klauspost/compress/zstd.NewReader"] = newPtr
+	noOpt := func(fr *frame, args []value) value { return (*ssa.Function)(nil) }
+	externals["github.com/klauspost/compress/zstd.WithEncoderConcurrency"] = noOpt
+	externals["github.com/klauspost/compress/zstd.WithWindowSize"] = noOpt
+	externals["github.com/klauspost/compress/zstd.WithDecoderConcurrency"] = noOpt
+}
+
+func init() {
+	externals["os.Getenv"] = func(fr *frame, args []value) value { return "" }
+	externals["os.LookupEnv"] = func(fr *frame, args []value) value { return tuple{"", false} }
+}
+
+func init() {
+	// errors.init needs reflectlite.TypeOf((*error)(nil)).Elem(); errors.As/Is are intrinsics
+	externals["internal/reflectlite.TypeOf"] = func(fr *frame, args []value) value { return iface{} }
+	externals["errors.init"] = func(fr *frame, args []value) value {
+		// hand initialisation: errorType (reflectlite) is only used by As/Is, which are intrinsics
+		pkg := fr.i.prog.ImportedPackage("errors")
+		if g := pkg.Var("ErrUnsupported"); g != nil {
+			var cell value = strErr(fr, "unsupported operation")
+			fr.i.globals[g] = &cell
+		}
+		return nil
 	}
 }
